@@ -19,6 +19,14 @@ operation up in a table generated from the docstring "Raises" sections of the co
 exception it raises on valid operands over one alphabet is a violation.  Results that differ
 only in generated state names are compared by an EXACT language comparison (product BFS,
 harness/langoracle.py) plus equal state counts.
+
+Round 4:
+(7) `restored_family`: the automata the library RESTORES or COPIES — pickle round trip (every protocol),
+    copy.copy, copy.deepcopy, copy(), twins of twins — are as usable as the original: the same battery of
+    operations, every answer equal to the original's, every public attribute readable and equal.
+(8) `lookalike_options_family`: allow_mutable_automata=True with the definition handed over in dict / set
+    subclasses (defaultdict, OrderedDict, __missing__, set subclass): accepted, same answers as the default
+    configuration, and after every read / operation the object still passes validate() and copy().
 """
 from __future__ import annotations
 
@@ -42,8 +50,17 @@ RULE = ("cases = (class, definition, expectation): valid-by-documentation defini
         "lambda-only tables, empty target sets, alphabets {a,b} / {a} / {}) through every unary operation and run, and "
         "for DFA / NFA every binary method on ordered pairs (degenerate × degenerate: a seeded sample in quick, all in "
         "thorough; degenerate × shaped-random in both orders), each call under all four option combinations with the "
-        "result re-validated. Non-trivial: the definition has ≥2 states and ≥1 transition; distinct "
-        "= distinct (class, encoded definition, expectation/op) tuples")
+        "result re-validated. Round 4: RESTORED / COPIED twins of accepted definitions of all 8 classes (pickle round "
+        "trip under every protocol, copy.copy, copy.deepcopy, copy(), second-generation twins; made before or after the "
+        "original was used; one option combination per case, all four in rotation): the whole battery of unary operations "
+        "in a shuffled order plus a sample of binary operations with the twin on either side (against a second automaton "
+        "and against its own original) and every public attribute — each answer equal to the original's (same value or "
+        "same exception class), results re-validated; and allow_mutable_automata=True × {validation on, off} × the six "
+        "container look-alikes of harness/lookalike.py (defaultdict outer+rows / outer only, OrderedDict, __missing__ "
+        "inserting / defaulting, set subclass) × every operation, query and run (words over the alphabet, with a foreign "
+        "symbol, and words the automaton accepts): answers equal to the default configuration built from plain "
+        "containers, and after every call validate() and copy() of the operand still succeed. Non-trivial: the "
+        "definition has ≥2 states and ≥1 transition; distinct = distinct (class, encoded definition, expectation/op) tuples")
 ASSUMPTIONS = [
     "definitions are type-correct (the container shapes of the class docstrings); names hashable",
     "empty input alphabets are inside the domain (validate() accepts them); the one operation family that fails on them — "
@@ -62,6 +79,11 @@ ASSUMPTIONS = [
     "GNFA labels: re._validate is an oracle bit supplied by the real code (the regex validator is the subject of C11)",
     "list-as-set model: the states container has no duplicates (it is a Python set)",
     "non-terminating PDA/TM runs are cut after 40 steps (or 150 simultaneous configurations); read_input/accepts_input are only called when the bounded stepwise run ended",
+    "a twin (restored / copied object) must answer as its original: literally, or — automata and regexes — up to generated "
+    "state names with exactly the same language; words_of_length / iteration listings as sets (their order is not "
+    "documented); random_word: any word of the requested length in the language (the seed-to-word mapping is not documented)",
+    "container look-alikes under the mutable option are subclasses of dict / set with the same content (the documented "
+    "parameter types are Mapping / AbstractSet); the reference answers are those of the default configuration on plain containers",
     "results of the four option combinations are compared literally; when set iteration order makes library-generated state names differ: same class, alphabet, number of states and EXACTLY the same language (product BFS over the two definitions, harness/langoracle.py)",
 ]
 EXPLANATION = ("Theorems C19_* state validate = ok ↔ well-formed (declarative), that every raised error is the documented "
